@@ -54,8 +54,6 @@ func removeGate(file string) {
 	<-release
 }
 
-const raceDeadline = 15 * time.Second
-
 // runRace: two concurrent TruncateUptoTx calls on a store with several value logs must both return
 // ("repeated or concurrent truncation is harmless").
 func runRace(seed int64, dir string, runs int, res *vh.Result) {
@@ -93,17 +91,20 @@ func runRace(seed int64, dir string, runs int, res *vh.Result) {
 			disarmRemoveGate()
 			res.Count("race:attempts", 1)
 			returned := 0
-			timeout := time.After(raceDeadline)
-		wait:
-			for returned < 2 {
-				select {
-				case err := <-done:
-					returned++
+			both2 := make(chan struct{})
+			errs := make([]error, 0, 2)
+			go func() {
+				for i := 0; i < 2; i++ {
+					errs = append(errs, <-done)
+				}
+				close(both2)
+			}()
+			if !stuck(both2) { // blocked = nothing inside the store moves any more (not merely slow)
+				returned = 2
+				for _, err := range errs {
 					if err != nil {
 						res.Count("race:error:"+err.Error(), 1)
 					}
-				case <-timeout:
-					break wait
 				}
 			}
 			if second != "" {
@@ -114,7 +115,7 @@ func runRace(seed int64, dir string, runs int, res *vh.Result) {
 			if returned < 2 {
 				c.hung = true
 				res.Violate(sigTruncHang, fmt.Sprintf("%d value logs: TruncateUptoTx(%d) and TruncateUptoTx(%d) run concurrently; call 1 holds %s, call 2 holds %s (each locked by fetchVLog and kept until return); %d of 2 calls returned within %v",
-					m, n1, n2, first, second, returned, raceDeadline),
+					m, n1, n2, first, second, returned, hangDeadline),
 					map[string]interface{}{"valueLogs": m, "fileSize": 64, "txs": ntx, "calls": []uint64{n1, n2}, "held": []string{first, second},
 						"goroutines": goroutineDump(), "how": "harness/cmd/c14 -mode race (FRemove hook used as gate)"})
 				break // the store is stuck: leave it; one reproduction per configuration is enough
